@@ -125,11 +125,14 @@ func (h *hist) walk(full bool) (*pview, []finding) {
 		fs = append(fs, finding{head, detail, what, txs})
 	}
 	v := &pview{byID: map[Hash]*pent{}, spent: map[OP][]*pent{}}
-	v.utxo = h.node.DumpUTXO()
-	utxoTx := map[Hash]bool{}
-	for op := range v.utxo {
-		utxoTx[op.Hash] = true
+	// The node's UTXO set changes only while a block is connected / disconnected, i.e. inside
+	// deliver(); the full dump taken there is reused (iterating the pre-sized shards costs ~15 ms).
+	// Every confirmed input of a pooled tx is cross-checked below with a point lookup.
+	if h.utxo == nil {
+		h.refreshUTXO()
 	}
+	v.utxo = h.utxo
+	utxoTx := h.utxoTx
 
 	h.enter("walker: listings / MempoolCheck")
 	defer h.leave()
@@ -283,7 +286,16 @@ func (h *hist) walk(full bool) (*pview, []finding) {
 				e.sumIn += uint64(p.rt.Out[op.Idx].Value)
 				continue
 			}
-			if c, ok := v.utxo[op]; ok {
+			c, ok := v.utxo[op]
+			if po := h.node.Ch.Unspent.UnspentGet(&btc.TxPrevOut{Hash: op.Hash, Vout: op.Idx}); (po != nil) != ok || (ok && po.Value != c.Value) {
+				// the cached dump is stale (must not happen): take a fresh one
+				h.run.Inc("utxo_dump_cache_stale")
+				h.refreshUTXO()
+				v.utxo, utxoTx = h.utxo, h.utxoTx
+				c, ok = v.utxo[op]
+			}
+			h.run.Inc("utxo_point_lookups")
+			if ok {
 				e.sumIn += c.Value
 				continue
 			}
